@@ -80,7 +80,7 @@ FINDING_CLASSES = {1: "parse-object-adapts-in-place", 2: "container-below-tuple-
 # finding => violation).  "judge_fixed": the tree with fixes/C08-container-below-tuple-shared.patch and
 # fixes/C08-parse-object-adapts-in-place.patch applied (model run_op_fixed, no guard, no finding class).
 # The lead flips the default when both patches have landed; VERIF_C08_JUDGE overrides it for trial runs.
-JUDGE = os.environ.get("VERIF_C08_JUDGE", "judge_fixed2")  # repairs landed: /repo d762aa8, e3cc9bb and (default-below-tuple-shared) e8ce5f9
+JUDGE = os.environ.get("VERIF_C08_JUDGE", "judge_fixed3")  # repairs landed: /repo d762aa8, e3cc9bb and (default-below-tuple-shared) e8ce5f9
 
 META = {
     "level_text": (
